@@ -30,8 +30,52 @@ def observers(rng, c, h, all_=False):
         h.append('state fd')
 
 
-def mutator(rng, c, focus):
-    return gen.upd_line(rng, c, focus=focus)
+def mutator(rng, c, focus, h):
+    """one call of a mutating entry point (appends to h; the caller wraps it query-mutate-query)"""
+    n = c.name
+    r = rng.random()
+    if r < 0.4:
+        h.append(gen.upd_line(rng, c, focus=focus))
+    elif r < 0.5:
+        h.append(gen.updr_line(rng, c))
+    elif r < 0.58 and c.kind != 'rec':
+        h.append(gen.geom_line(rng, c, mode='ior'))           # geometry operators in place
+    elif c.kind == 'wide':
+        W = c.nbytes * 8
+        pix = gen.rand_pixels(rng, c, unique=False, focus=focus)
+        if r < 0.8:
+            h.append('bits %s mode=%s pix=%s bits=%s' % (n, rng.choice(['set', 'clear']), ','.join(map(str, pix)) or '_',
+                                                          ','.join(str(rng.randrange(W)) for _ in range(2))))
+        else:
+            h.append(gen.scalar_op_line(rng, c, inplace=True))
+    elif c.is_bool:
+        if r < 0.7:
+            h.append('inv %s inplace=1' % n)
+        elif r < 0.85:
+            h.append('bop %s op=%s const=%s inplace=1' % (n, rng.choice(['and', 'or', 'xor']), rng.choice('TF')))
+        else:
+            # operand map built on the fly (same configuration, ordinary boolean storage)
+            o = gen.MapCfg('o', 'plain', c.covord, c.spord, dtype='b1')
+            h.append(o.line())
+            h.append(gen.upd_line(rng, o, focus=focus))
+            h.append('bop %s op=%s rhs=o inplace=1' % (n, rng.choice(['and', 'or', 'xor'])))
+    elif c.kind == 'rec':
+        # write (or clear) through a freshly taken view of the primary field
+        f = c.primary if rng.random() < 0.7 else rng.randrange(len(c.fields))
+        h.append('single %s r=v field=%d' % (n, f))
+        pix = gen.rand_pixels(rng, c, n=rng.choice([1, 2, 4]), focus=focus)
+        fc = gen.MapCfg('v', 'plain', c.covord, c.spord, dtype=c.fields[f])
+        if rng.random() < 0.5:
+            h.append('upd v op=replace none=1 pix=%s' % (','.join(map(str, pix)) or '_'))
+        else:
+            h.append('upd v op=replace pix=%s val=%s' % (','.join(map(str, pix)) or '_', fc.val(rng)))
+    elif r < 0.8:
+        h.append(gen.scalar_op_line(rng, c, inplace=True))
+    else:
+        k = gen.MapCfg('k', 'plain', c.covord, c.spord, dtype=rng.choice(['i2', 'u1', 'i8']), sentinel='0')
+        h.append(k.line())
+        h.append(gen.upd_line(rng, k, focus=focus))
+        h.append('mask %s by=k inplace=1' % n)
 
 
 def histories(rng, tier):
@@ -45,7 +89,7 @@ def histories(rng, tier):
         for _ in range(rng.randint(3, 10)):
             if rng.random() < 0.8:
                 h.append('nvalid %s' % c.name)          # warm the cache
-            h.append(mutator(rng, c, focus))
+            mutator(rng, c, focus, h)
             h.append('nvalid %s' % c.name)
             observers(rng, c, h)
         observers(rng, c, h, all_=True)
@@ -59,6 +103,6 @@ def nontrivial(h):
         t = ln.split()
         if t[0] == 'nvalid':
             warm = True
-        elif t[0] == 'upd' and warm:
+        elif t[0] in ('upd', 'updr', 'sop', 'bop', 'inv', 'mask', 'bits', 'geom') and warm:
             return True
     return False
